@@ -256,6 +256,15 @@ func (r *Replayer) Run(idx int, b *Behaviour) error {
 			}
 		case "restart":
 			finishRig(k)
+			if st.Fault == "kill@genesis" {
+				// the FIRST start was killed after its migrations and before its genesis insert: a migrated database with an
+				// empty headers table is what this start finds
+				if _, err := r.S.DB.Exec("DELETE FROM headers"); err != nil {
+					return fmt.Errorf("HARNESS-ERROR emptying the table: %v", err)
+				}
+				r.Stats["fault:kill"]++
+				r.Stats["fault:kill-first-start"]++
+			}
 			r.S.Close()
 			if err := r.S.Open(); err != nil {
 				r.miss(k, "restart", "reopen ok", err.Error())
